@@ -278,6 +278,36 @@ def r2_lossless(rep, src, A):
     else:
         rep.ok('C14.R2', fset.site, 'store of the raw input', 'self.%s = %s (the matched parameter itself)' % (stored_input, param),
                nontrivial=False)
+    # the constructor hands its argument to the validated assignment unchanged (a version object as its own text)
+    from .. import paths
+    finit = src.func(SITE + '.__init__')
+    rep.saw_func(finit)
+    vp = finit.params()[1]
+    bad = None
+    nst = 0
+    for p_ in paths.function_paths(finit.node):
+        for ev in p_.events:
+            if ev[0] == 'store' and ev[1] == 'self.full_version':
+                nst += 1
+
+                def cases(e, conds):
+                    if isinstance(e, ast.IfExp):
+                        return cases(e.body, conds + [(e.test, True)]) + cases(e.orelse, conds + [(e.test, False)])
+                    return [(e, conds)]
+                for e_, conds in cases(ev[2], list(p_.conds)):
+                    v = norm(e_)
+                    is_obj = any(pol and isinstance(t_, ast.Call) and norm(t_.func) == 'isinstance' and norm(t_.args[0]) == vp and 'Version' in norm(t_.args[1])
+                                 for t_, pol in conds)
+                    if v == vp or (v == 'str(%s)' % vp and is_obj):
+                        continue
+                    bad = bad or 'on the path [%s] the constructor assigns %s' % (p_.describe()[:100], v[:50])
+    if not nst:
+        raise AnalysisError('%s: no assignment of full_version' % finit.site)
+    if bad is None:
+        rep.ok('C14.R2', finit.site, 'constructor passes its argument on unchanged', 'self.full_version = %s (str() of a version object)' % vp, nontrivial=False)
+    else:
+        rep.fail('C14.R2', finit.site, 'constructor passes its argument on unchanged', bad + ': strings that are not valid versions are accepted after being altered, and '
+                 'str() of the object differs from the input', where=finit.where)
     # which groups always participate?
     alpha, markers = A['alpha'], A['markers']
     shape = {}
@@ -323,6 +353,40 @@ def r2_lossless(rep, src, A):
         union = tm if union is None else union.union(tm)
         shown.append(strlang.show(term))
     accepted_marked = A['chosen_ok']
+    # the other direction, for assigned components: a recomposed text that is accepted again must decompose into the components it
+    # was composed from (otherwise assigning one component silently changes another).  Component domains: epoch digits, revision
+    # over its character set (possibly empty unless the writer tests it), upstream over its set -- with "-" only in worlds where a
+    # revision is written and ":" only where an epoch is written.
+    acc_erased = rx.erase_markers(accepted_marked)
+    back = None
+    for dec, (_, term), it in res:
+        langs = {}
+        present = {a for a in attr_group if dec.get(('present', 'self.' + a), True)}
+        has_epoch = any('epoch' in str(attr_group[a]) for a in present)
+        has_rev = any('revision' in str(attr_group[a]) for a in present)
+        for a, g in attr_group.items():
+            gs = str(g)
+            if 'epoch' in gs:
+                base = '[0-9]+'
+            elif 'revision' in gs:
+                base = '[A-Za-z0-9+.~]*'
+            else:
+                base = '[A-Za-z0-9.+~%s%s]+' % (':' if has_epoch else '', '-' if has_rev else '')
+            langs['self.' + a] = rx.regex_lang(base, 0, 'fullmatch', alpha=alpha)
+        for (path, test, var, pol) in it.preds:
+            pl = strlang.pred_lang(test, var, alpha)
+            if path in langs:
+                langs[path] = langs[path].intersect(pl if pol else pl.complement())
+        tags = {'self.' + a: g for a, g in attr_group.items()}
+        tm, _te = strlang.template_langs(term, alpha, lambda p: langs.get(p, anyl), tags, groups)
+        w_ = tm.intersect(rx.lift(acc_erased, tm.markers)).not_subset_witness(accepted_marked)
+        if w_ is not None and back is None:
+            back = (w_, strlang.show(term))
+    if back is not None:
+        rep.fail('C14.R2', fupd.site, 'decompose∘recompose = id', 'the components written as %r (template %s) are accepted but read back differently: assigning one '
+                 'component changes another / the text no longer recomposes from its parts' % back, detail={'witness': back[0]}, where=fupd.where)
+    else:
+        rep.ok('C14.R2', fupd.site, 'decompose∘recompose = id', 'every accepted recomposition parses back into the components it was built from')
     w = accepted_marked.not_subset_witness(union)
     if w is not None:
         rep.fail('C14.R2', fupd.site, 'recompose∘decompose = id',
